@@ -198,12 +198,12 @@ def record_from_tx(run: Run, n: int) -> list[dict[str, Any]]:
                 wit = [b"", ws]
             elif kind == "p2tr-key":
                 spk = b"\x51\x20" + r.randbytes(32)
-                wit = [r.randbytes(64)] + ([b"\x50" + r.randbytes(4)] if r.random() < 0.4 else [])
+                wit = [r.randbytes(64)] + ([b"\x50" + r.randbytes(r.choice([0, 0, 1, 4]))] if r.random() < 0.5 else [])     # (an annex may be the byte 0x50 alone)
             else:
                 spk = b"\x51\x20" + r.randbytes(32)
                 leaf = r.choice([b"\x51", bytes([32]) + key[1:] + b"\xac"])
                 ctrl = bytes([0xC0 + r.randrange(2)]) + r.randbytes(32) + r.randbytes(32 * r.randrange(0, 3))
-                wit = [r.randbytes(64), leaf, ctrl] + ([b"\x50" + r.randbytes(2)] if r.random() < 0.4 else [])
+                wit = [r.randbytes(64), leaf, ctrl] + ([b"\x50" + r.randbytes(r.choice([0, 0, 2]))] if r.random() < 0.5 else [])
             value = r.choice([1000, 546, 21 * 10**14 - 5, r.randrange(1, 10**9)])
             po = TxOut(value, ScriptPubKey(spk, check_validity=False), check_validity=False)
             ptx = Tx(2, 0, [TxIn(OutPoint(r.randbytes(32), 0))], [TxOut(5, ScriptPubKey(b"\x51")), po][:: r.choice([1, -1])])
@@ -300,6 +300,28 @@ def record_from_tx(run: Run, n: int) -> list[dict[str, Any]]:
                         base.update({"tx": stripped, "idx": idx, "ht": u32(eff), "kind": kind, "asked": "none" if ht is None else ht, "input_type": "none" if it is None else it})
                         evs.append({**base, "route": f"psbt.ecdsa_sig_hash[{tagv}]", "out": _dig(lambda: ecdsa_sig_hash(psbt, idx, hash_type=ht))})
                         evs.append({**base, "route": f"PsbtView.ecdsa_sig_hash[{tagv}]", "out": _dig(lambda: view.ecdsa_sig_hash(idx, hash_type=ht))})
+                # the transaction a psbt or a view hands out is the caller's copy: written into, it changes no digest asked for afterwards
+                for who, src in (("Psbt", psbt), ("PsbtView", view)):
+                    t = src.tx
+                    t.lock_time ^= 1
+                    t.version += 1
+                    t.vin[0].sequence ^= 1
+                    t.vin[0].prev_out = OutPoint(bytes(32), 7, check_validity=False)
+                    t.vout[0] = TxOut(t.vout[0].value + 1, t.vout[0].script_pub_key, check_validity=False)
+                    evs.append({"op": "ser", "tx": stripped, "idx": 0, "route": f"{who}.tx[{tagv}] after the caller wrote into the one it was handed",
+                                "out": _dig(lambda: src.tx.serialize(include_witness=False, check_validity=False))})
+                    k0 = kinds[0]
+                    if k0 == "p2tr-key":
+                        base = {"op": "taproot", "tx": stripped, "idx": 0, "prevouts": pj, "ht": in_types[0] or 0, "extflag": 0, "annex": "", "ext": "", "asked": "none", "input_type": "none" if in_types[0] is None else in_types[0]}
+                        evs.append({**base, "route": f"{who}.taproot_sig_hash[{tagv}] after the caller wrote into tx",
+                                    "out": _dig(lambda: taproot_sig_hash(psbt, 0) if who == "Psbt" else view.taproot_sig_hash(0))})
+                    elif k0 in ("p2wpkh", "p2sh-p2wpkh"):
+                        prog = (extras[0][0] or prevouts[0].script_pub_key.script)[2:]
+                        eff = in_types[0] if in_types[0] is not None else 1
+                        base = {"op": "segwit_v0", "code": (b"\x76\xa9\x14" + prog + b"\x88\xac").hex(), "amount": nat(prevouts[0].value), "tx": stripped, "idx": 0, "ht": u32(eff), "kind": k0, "asked": "none",
+                                "input_type": "none" if in_types[0] is None else in_types[0]}
+                        evs.append({**base, "route": f"{who}.ecdsa_sig_hash[{tagv}] after the caller wrote into tx",
+                                    "out": _dig(lambda: ecdsa_sig_hash(psbt, 0) if who == "Psbt" else view.ecdsa_sig_hash(0))})
         except Exception as e:  # noqa: BLE001
             run.note(f"psbt route skipped for one transaction: {type(e).__name__}: {e}"[:200])
     return evs
